@@ -10,9 +10,10 @@
 (*                     multiples of their alignment or not at all, rewritten  *)
 (*                     entries appended or kept in place                      *)
 (* All clauses of the property are invariants.  For "fixed" and "legal" they  *)
-(* must hold (a failure is a fault of the specification); for "ppci" TLC's    *)
-(* counterexamples are the design-level findings, each of which the engine    *)
-(* confirms on the real linker (idiom T).                                     *)
+(* must hold (a failure is a fault of the specification); for "ppci" no       *)
+(* invariant is listed: the clauses the transcription violates are announced  *)
+(* per job - the design-level findings, each of which the engine confirms on  *)
+(* the real linker (idiom T).                                                 *)
 (* (The engine supplies module LinkerJobs:  EXTENDS Relax_MCJobs              *)
 (*  Jobs == MCJobs.)                                                          *)
 EXTENDS Relax, TLC
@@ -59,13 +60,19 @@ Situations(d, K) ==
     \cup Flag(\E r \in Candidates(d) : ~RdOK(d, r), "jal-with-other-link-register")
 Say(ss) == ~Announce \/ PrintT(<<"sit", Design, ss>>)
 
+\* ppci's choice: no invariant is put on it; the clauses it violates are announced per job
+\* (<<"cex", job, clauses>>) and the engine confirms each on the real linker
+Cex(d, K, addrs) == PrintT(<<"cex", job, Violated(d, RelaxResult(d, K, addrs, "append"), K, RelOrder(d, K, "append"))>>)
 DoRelax ==
     /\ ph = "relax"
-    /\ CASE Design = "ppci"  -> RelaxDesign /\ Say(Situations(dst, DesignK(dst)))
+    /\ CASE Design = "ppci"  -> /\ RelaxDesign /\ Say(Situations(dst, DesignK(dst)))
+                                /\ Cex(dst, DesignK(dst), DesignAddrs(dst, DesignK(dst)))
          [] Design = "fixed" -> RelaxFixed /\ Say(Situations(dst, FixedK(dst)))
          [] OTHER -> \E c \in LegalChoices(dst) :
                         /\ RelaxWith(c[1], IF c[2] = 1 THEN FixedAddrs(dst, c[1]) ELSE KeepAddrs(dst), c[3])
                         /\ Say(Situations(dst, c[1]))
+\* the repaired choice is one of the legal ones (so the "legal" run covers it)
+FixedIsLegal == ph = "relax" => <<FixedK(dst), 1, "append">> \in LegalChoices(dst)
 MCWork == OtherPhases \/ DoRelax
 MCNext == MCWork
 
